@@ -336,6 +336,13 @@ def c01 (v : StepView) : Verdict :=
     let viol := fun (why : String) =>
       if sane then bad why else known "mount-config-not-sane" (why ++ " (layerconfig with duplicate, nested or escaping mountpoints)")
     if sys.any (·.kind != "mount") then bad "mount issued an unmount call" else
+    -- idempotence first (it holds for every layerconfig, sane or not): repeating a
+    -- successful mount performs no mount operation at all
+    let repeated := match v.prevStep with
+      | some p => (cmdOf p == "mount" || cmdOf p == "chroot") && argOf p 0 == a0 && v.prevCls == "ok"
+                  && !getBool p "pretend" && (optNat p "fault").isNone && (optNat p "crash").isNone
+      | none => false
+    if repeated && !sys.isEmpty then bad "repeating a successful mount issued mount operations" else
     let owner := fun (t : Bytes) => chain.find? fun n => atOrBelow (buildDir v.pre n) t
     if sys.any (fun s => (owner s.tgt).isNone) then viol "mount outside the build roots of the layer's chain" else
     -- nothing stacked: replay, checking each structural mount's target first
@@ -404,13 +411,7 @@ def c01 (v : StepView) : Verdict :=
           | none => false) &&
         l.file.mounts.all fun m => (topAt v.post.mnts (pathJoin [buildDir v.post n, m.mount])).isSome
     if !complete then viol "mount succeeded but a chain layer lacks a configured mount" else
-    -- idempotence: repeating a successful mount performs no mount operation
-    let repeated := match v.prevStep with
-      | some p => (cmdOf p == "mount" || cmdOf p == "chroot") && argOf p 0 == a0 && v.prevCls == "ok"
-                  && !getBool p "pretend" && (optNat p "fault").isNone && (optNat p "crash").isNone
-      | none => false
-    if repeated && !sys.isEmpty then bad "repeating a successful mount issued mount operations"
-    else fine [(if sys.isEmpty then "c01:nothing-to-do" else "c01:mounted")]
+    fine [(if sys.isEmpty then "c01:nothing-to-do" else (if repeated then "c01:repeated" else "c01:mounted"))]
 
 /-! ### C08 -/
 
